@@ -417,6 +417,25 @@ def short_(q):
     return q.rsplit("::", 1)[-1]
 
 
+def _close_env(fn, env):
+    """locals whose single initialiser evaluates under env are added to it (helpers spliced in place bind their by-value parameters to such locals)"""
+    from engine.kinds import eval_tree as _e, Unknown as _U
+    env = dict(env)
+    decls = {}
+    for _, _, e in fn.all_events():
+        if e.get("k") == "decl" and e.get("init") is not None:
+            decls.setdefault(e["var"], []).append(e["init"])
+    for _ in range(4):
+        for v, inits in decls.items():
+            if v in env or len(inits) != 1:
+                continue
+            try:
+                env[v] = _e(inits[0], env)
+            except _U:
+                pass
+    return env
+
+
 def sliding_window_rules(rep, ss):
     """C08.R8, first part - see the rule text"""
     from engine.kinds import eval_walk
@@ -435,7 +454,7 @@ def sliding_window_rules(rep, ss):
     bad = None
     n = 0
     for u, d, l in grid:
-        env = {up: u, "this->max_difference_": d, "this->lower_limit_": l}
+        env = _close_env(wt, {up: u, "this->max_difference_": d, "this->lower_limit_": l})
         must_wait = (u - d) > l
         for evs, end in eval_walk(wt, wt.entry, tree_env=env):
             n += 1
@@ -456,7 +475,7 @@ def sliding_window_rules(rep, ss):
     bad = None
     n = 0
     for u, d, l in grid:
-        env = {up: u, "this->max_difference_": d, "this->lower_limit_": l}
+        env = _close_env(tw, {up: u, "this->max_difference_": d, "this->lower_limit_": l})
         inside = not ((u - d) > l)
         for evs, end in eval_walk(tw, tw.entry, tree_env=env):
             n += 1
